@@ -117,6 +117,27 @@ def run(ctx):
                             fails.append({"case": case, "what": "a loaded node is not registered under its id"}); break
             if impl.snapshot(root) != orig:
                 fails.append({"case": case, "what": "to_json changed the tree"})
+            if closed and rng.random() < 0.25:
+                # the text is the contract: a document whose ids were written by someone else (the empty string, "0", "None",
+                # "null" are strings like any other) loads and re-serialises to the same document
+                doc_ = json.loads(text)
+                def ids_of(d, acc):
+                    for nm, body in d.items():
+                        for f in body:
+                            if "id" in f:
+                                acc.append(f)
+                            if "children" in f:
+                                for k in f["children"]:
+                                    ids_of(k, acc)
+                    return acc
+                slots = ids_of(doc_, [])
+                for f, v in zip(rng.sample(slots, min(len(slots), 3)), ["", "0", rng.choice(["None", "null", "False"])]):
+                    f["id"] = v
+                impl.reset()
+                eback = metapype_io.from_json(json.dumps(doc_))
+                if json.loads(metapype_io.to_json(eback)) != doc_:
+                    fails.append({"case": {"tree": orig, "ids_in_document": [f["id"] for f in slots][:6]},
+                                  "what": "a JSON document with caller-chosen ids (\"\", \"0\", \"None\", ...) does not load and re-serialise to the same document"})
             # "any tree": also a subtree of a larger document, serialised on its own (its root has a parent and, possibly, a tail)
             inner = [n for n in walk(root) if n.parent is not None]
             if closed and inner and rng.random() < 0.4:
